@@ -2,8 +2,8 @@ import TongoProofs.Lemmas.BocTotal
 import TongoProofs.Lemmas.BocBitsRt
 /-! Hashing never panics on a sound table: the tree-level model of `newImmutableCell` / `Hash` / `Depth`
 (TongoModel/Cell.lean) on every cell tree a parse result unfolds to. -/
-namespace Tongo
-open Tongo.Boc
+namespace Tongo.BocHash
+open Tongo Tongo.Boc
 
 /-- what hashing needs from a computed HashInfo -/
 structure InfoOK (i : HashInfo) : Prop where
@@ -83,7 +83,7 @@ theorem depthAt_no_panic (i : HashInfo) (h : InfoOK i) (lvl : Nat) : ∀ p, i.de
       omega
     · simp
 
-instance : LawfulMonad Outcome := LawfulMonad.mk'
+instance bocLawfulOutcome : LawfulMonad Outcome := LawfulMonad.mk'
   (id_map := by intro α x; cases x <;> rfl)
   (pure_bind := by intros; rfl)
   (bind_assoc := by intro α β γ x f g; cases x <;> rfl)
@@ -343,4 +343,4 @@ theorem unfold_treeOK (t : Table) (hrows : ∀ i (h : i < t.size), Boc.RowOK t.s
         · exact ih x c hc
         · simp at hc
 
-end Tongo
+end Tongo.BocHash
